@@ -222,15 +222,26 @@ class GroupValidator:
                     error_code = ValidationErrors.HED_TAG_REPEATED_GROUP
                     found_group = child
                     base_steps_up = 0
-                    while isinstance(found_group, list):
+                    while isinstance(found_group, list) and found_group:
                         found_group = found_group[0]
                         base_steps_up += 1
+                    if isinstance(found_group, list):
+                        # Nothing but empty groups inside: there is no tag to walk up from.
+                        found_group = self._sorted_text(child)
+                        base_steps_up = 0
                     for _ in range(base_steps_up):
                         found_group = found_group._parent
                     validation_issues += ErrorHandler.format_error(error_code, found_group)
             if not isinstance(child, HedTag):
                 self._check_for_duplicate_groups_recursive(child, validation_issues)
             prev_child = child
+
+    @staticmethod
+    def _sorted_text(item):
+        """ Text of a (sub)list returned by HedGroup._sorted. """
+        if isinstance(item, list):
+            return "(" + ",".join(GroupValidator._sorted_text(sub_item) for sub_item in item) + ")"
+        return str(item)
 
     def _check_for_duplicate_groups(self, original_group):
         sorted_group = original_group._sorted()
